@@ -1,4 +1,4 @@
-\* random deep plans: 2 tasks, 2 slots x 2 incarnations, 6 writes
+\* random deep plans with delivery barriers: 2 tasks (t1 started before: its watch is running and delivering), 2 slots x 2 incarnations, 6 writes
 SPECIFICATION Spec
 CHECK_DEADLOCK FALSE
 
@@ -14,4 +14,4 @@ CONSTANTS
   WithDrain = FALSE
   PartFix = TRUE
   SubAt = "first"
-  SyncSteps = FALSE
+  SyncSteps = TRUE
